@@ -343,7 +343,7 @@ pub fn drive_check<I: Iterator, F: Fn() -> I, C: Fn(I::Item) -> String>(make: F,
             return Err("next() after the end gave an item".to_string());
         }
     }
-    let mut ns: Vec<usize> = vec![0, 1, 2, 3];
+    let mut ns: Vec<usize> = vec![0, 1, 2, 3, 7, 8, 9, 12, 16];
     for d in [2usize, 1, 0] {
         ns.push(total.saturating_sub(d));
     }
@@ -352,7 +352,7 @@ pub fn drive_check<I: Iterator, F: Fn() -> I, C: Fn(I::Item) -> String>(make: F,
     ns.dedup();
     for c in 0..=total.min(3) {
         for &n in &ns {
-            for &n2 in &[0usize, 1] {
+            for &n2 in &[0usize, 1, 5, 8] {
                 let mut it = make();
                 for _ in 0..c {
                     it.next();
@@ -701,6 +701,27 @@ pub fn suite_changes(ctx: &mut Ctx) {
                     check_changes(ctx, Call::Replace(o, a, n, b), len);
                 }
             }
+        }
+    }
+    // LONG ops (a jump of 8 or more items inside one op, from its delete half into its insert half, ...): lengths up to 20
+    for (a, b) in [(3usize, 12usize), (12, 3), (9, 9), (1, 17), (17, 1), (20, 20), (0, 13), (13, 0)] {
+        if !ctx.take() {
+            continue;
+        }
+        let len = a.max(b) + 4;
+        if a > 0 && b > 0 {
+            check_changes(ctx, Call::Replace(1, a, 2, b), len);
+            check_allchanges(ctx, &[Call::Equal(0, 0, 1), Call::Replace(1, a, 1, b), Call::Equal(1 + a, 1 + b, 2), Call::Insert(3 + a, 3 + b, 1)], len + 1);
+            check_allchanges(ctx, &[Call::Replace(0, a, 0, b), Call::Replace(a, 2, b, 2), Call::Delete(a + 2, 1, b + 2)], len + 1);
+        }
+        if a == b {
+            check_changes(ctx, Call::Equal(2, 1, a), len);
+        }
+        if b == 0 {
+            check_changes(ctx, Call::Delete(0, a, 3), len);
+        }
+        if a == 0 {
+            check_changes(ctx, Call::Insert(2, 0, b), len);
         }
     }
     // arbitrary op lists of 1..3 ops (not necessarily a script: any start positions, overlapping, out of order)
